@@ -11,6 +11,7 @@ mod c06;
 mod c07;
 mod c08;
 mod c09;
+mod c10;
 mod c11;
 mod c12;
 mod c13;
@@ -40,6 +41,7 @@ fn dispatch(case: &Value) -> Value {
         "c07" => c07::run(k, case),
         "c08" => c08::run(k, case),
         "c09" => c09::run(k, case),
+        "c10" => c10::run(k, case),
         "c11" => c11::run(k, case),
         "c12" => c12::run(k, case),
         "c13" => c13::run(k, case),
